@@ -103,6 +103,9 @@ structure Node where
   out : List Emit
   /-- GHOST (history variable, read by no transition): every vote the node has signed, oldest first -/
   signed : List VoteSet.Vote
+  /-- GHOST (read by no transition): the vote sets of every height the node has left, as they were
+      when `finalizeCommit` moved on (height, HeightVoteSet.roundVoteSets) -/
+  past : List (Int × List RoundVotes) := []
   deriving Repr
 
 def vsVals (vs : ValSet.ValSet) : List VoteSet.Validator := vs.vals.map fun v => ⟨v.addr, v.power⟩
@@ -282,7 +285,7 @@ def finalizeCommit (n : Node) (h : Int) : Node :=
                    proposal := none, proposalBlock := none, proposalParts := none, partsComplete := false,
                    lockedRound := 0, lockedBlock := none,
                    lastCommit := precommits n n.commitRound, commitRound := -1,
-                   rounds := [], hvsRound := 0, catchup := [] }
+                   rounds := [], hvsRound := 0, catchup := [], past := n.past ++ [(h, n.rounds)] }
         let n' := { n' with rounds := [newRoundVotes n' (h + 1) 0] }
         emit n' (.timeout (h + 1) 0 .newHeight)
     | _, _ => emit n (.panic "finalizeCommit:maj23")
